@@ -10,8 +10,8 @@
 EXTENDS SVA, TraceIO
 VARIABLE l
 Ev == TraceLog[l]
-P == <<0, 1, 2, 3, 4, 5, -1>>
-NP == 7
+P == <<0, 1, 2, 3, 4, 5, -1, 1000000>>      \* the last one stands for npos - 1: a count or position far beyond any length, for which pos + n wraps around
+NP == 8
 Sg(x) == IF x < 0 THEN -1 ELSE IF x > 0 THEN 1 ELSE 0
 
 \* r: record of results (either the tlx or the std one)
